@@ -76,6 +76,13 @@ def run(ctx):
     except Exception as e:                      # fail-closed: the broken tie is reported below
         genfail = repr(e)
         ctx.cov["generated"]["gen_reader"] = genfail
+    # reader behaviour that depends on the configured classes (reaction types of the configured Reaction class,
+    # composite-domain look-ups through the configured Strand class): stated directly on the implementation
+    from common import run_oracle as _ro
+    _x = _ro("c15_extra.py", {"seed": ctx.seed, "n": 40 if quick else 600})
+    for f in _x["failures"]:
+        ctx.violation("counterexample", {"key": {"extra": f["steps"]}, "input": f["steps"], "what": "; ".join(f["what"]),
+                                         "snippet": "# harness/oracles/c15_extra.py, steps: " + repr(f["steps"])})
     import time as _t
     t0 = _t.time()
     res = prove(ctx)
